@@ -21,6 +21,10 @@ if TYPE_CHECKING:
     from ...scenario.config.event_configs import ScheduledImpulseEventConfig
 
 
+_JULIAN_DATE_NOISE_SEC = 1.0e-4
+"""``float``: largest error of a time that went through two Julian dates (one ulp of each is ~4e-5 sec)."""
+
+
 class ScheduledImpulseEvent(Event):
     """Event data object describing a scheduled impulsive maneuver."""
 
@@ -68,10 +72,12 @@ class ScheduledImpulseEvent(Event):
         """
         start_jd = JulianDate(self.start_time_jd)
         # [NOTE]: A Julian date resolves ~4e-5 sec; drop the conversion noise so that an impulse
-        #   scheduled on a step boundary stays on it.
-        start_sim_time = ScenarioTime(
-            round(start_jd.convertToScenarioTime(scope_instance.julian_date_start), 3),
-        )
+        #   scheduled on a step boundary stays on it. Only noise is dropped: a time that is further
+        #   away from the millisecond grid is kept as it is.
+        start_sim_time = start_jd.convertToScenarioTime(scope_instance.julian_date_start)
+        if abs(start_sim_time - round(start_sim_time, 3)) < _JULIAN_DATE_NOISE_SEC:
+            start_sim_time = round(start_sim_time, 3)
+        start_sim_time = ScenarioTime(start_sim_time)
 
         burn_vector = array([self.thrust_vec_0, self.thrust_vec_1, self.thrust_vec_2])
         frame = ThrustFrame(self.thrust_frame)  # raises ValueError if frame isn't valid
